@@ -2,6 +2,9 @@ package harness
 
 import (
 	"fmt"
+	"io"
+	"log"
+	"net"
 	"sort"
 	"strings"
 	"sync"
@@ -172,6 +175,7 @@ func c04Healthy(r *rng, id string) {
 }
 
 func TestC04(t *testing.T) {
+	forCases(12, 44, "u", func(i int, r *rng, id string) { c04Udp(r, id) })
 	forCases(6, 43, "x", func(i int, r *rng, id string) { lockStir("C04", r, id) })
 	n := envInt("VERIF_N", 60)
 	if thorough() {
@@ -180,4 +184,98 @@ func TestC04(t *testing.T) {
 	forCases(n, 41, "s", func(i int, r *rng, id string) {
 		bubble(t, "C04", id, func() { c04Healthy(r, id) })
 	})
+}
+
+// c04Udp: a healthy burst over the stock UDP transport (real loopback sockets): K alive messages about K
+// different new members arrive while the node is busy (the handler waits for the membership lock), so they
+// sit in the handoff queue for a moment. Once the node catches up it must know exactly those K members, each
+// with the address and metadata its own message carried - nobody's message may be lost to, or rewritten by,
+// a later packet.
+func c04Udp(r *rng, id string) {
+	// a datagram lost by the kernel would look like a lost message: a run with members missing (and nothing
+	// else wrong) is repeated once with the same messages, and only a repeated loss is reported
+	seed := r.next()
+	var line string
+	for attempt := 1; attempt <= 2; attempt++ {
+		var missingOnly bool
+		line, missingOnly = c04UdpOnce(&rng{s: seed | 1}, id, attempt)
+		if line == "" || !missingOnly {
+			break
+		}
+	}
+	if line != "" {
+		emit("%s", line)
+	}
+}
+
+func c04UdpOnce(r *rng, id string, attempt int) (string, bool) {
+	nt, err := ml.NewNetTransport(&ml.NetTransportConfig{BindAddrs: []string{"127.0.0.1"}, BindPort: 0, Logger: log.New(io.Discard, "", 0)})
+	if err != nil {
+		return "", false // no loopback sockets here
+	}
+	conf := ml.DefaultLANConfig()
+	conf.Name = "R"
+	conf.Transport = nt
+	conf.AdvertiseAddr = "10.0.0.9"
+	conf.AdvertisePort = 7946
+	conf.BindPort = 7946
+	conf.ProbeInterval = time.Hour
+	conf.GossipInterval = 0
+	conf.PushPullInterval = 0
+	conf.Logger = log.New(io.Discard, "", 0)
+	m, err := ml.Create(conf)
+	if err != nil {
+		nt.Shutdown()
+		return "", false
+	}
+	defer m.Shutdown()
+	c, err := net.DialUDP("udp", nil, &net.UDPAddr{IP: net.IPv4(127, 0, 0, 1), Port: nt.GetAutoBindPort()})
+	if err != nil {
+		return "", false
+	}
+	defer c.Close()
+	k := 3 + r.intn(6)
+	vsn := []uint8{1, 5, 2, 0, 0, 0}
+	want := map[string]string{}
+	ml.VerifWithNodeLock(m, func() {
+		for i := 0; i < k; i++ {
+			// later names are shorter than earlier ones half of the time (a shorter message fits inside a longer one)
+			name := fmt.Sprintf("m%d-%s", i, strings.Repeat("x", []int{30, 20, 12, 6, 2, 0, 25, 9, 1}[(i+r.intn(3))%9]))
+			meta := fmt.Sprintf("meta-%d", i)
+			addr := []byte{10, 1, byte(i), 1}
+			c.Write(ml.VerifEncodeAlive(uint32(1+i), name, addr, 7946, []byte(meta), vsn))
+			want[name] = fmt.Sprintf("%x/%s/%d", addr, meta, 1+i)
+			time.Sleep(2 * time.Millisecond)
+		}
+		time.Sleep(20 * time.Millisecond)
+	})
+	deadline := time.Now().Add(3 * time.Second)
+	got := map[string]string{}
+	for time.Now().Before(deadline) {
+		got = map[string]string{}
+		for _, nd := range ml.VerifSnapshotState(m).Nodes {
+			if nd.Name != "R" {
+				got[nd.Name] = fmt.Sprintf("%x/%s/%d", nd.Addr, nd.Meta, nd.Incarnation)
+			}
+		}
+		if len(got) >= k && ml.VerifHandoffLen(m) == 0 {
+			break
+		}
+		time.Sleep(5 * time.Millisecond)
+	}
+	missing, wrong, extra := 0, 0, 0
+	for n, w := range want {
+		if g, ok := got[n]; !ok {
+			missing++
+		} else if g != w {
+			wrong++
+		}
+	}
+	for n := range got {
+		if _, ok := want[n]; !ok {
+			extra++
+		}
+	}
+	return fmt.Sprintf("C04 udp id=%s attempt=%d sent=%d known=%d missing=%d wrong=%d extra=%d", id, attempt, k, len(got), missing, wrong, extra),
+		missing > 0 && wrong == 0 && extra == 0
 }
